@@ -742,7 +742,9 @@ TOP:
 			case 2: // assume (interface{}, error) return
 				value = mva[0].Interface()
 				if err, _ = mva[1].Interface().(error); err != nil {
-					ea = append(ea, resWarn(field.line, field.col, "%s", err))
+					// As for the other resolvers, one entry for each
+					// member of a group of errors.
+					ea = root.addError(field, ea, err)
 				}
 			default:
 				ea = append(ea, resWarn(field.line, field.col, "%T.%s returned more than 2 values", obj, field.Name))
